@@ -1,11 +1,11 @@
-//go:build !verifsim_futex
+//go:build !verifsim_futex && !verifsim_spin
 
 package simrt
 
 // parker (channel version): used in ordinary builds.
 type parker struct{ ch chan struct{} }
 
-func newParker() *parker { return &parker{ch: make(chan struct{}, 1)} }
+func newParker() *parker  { return &parker{ch: make(chan struct{}, 1)} }
 func (p *parker) park()   { <-p.ch }
 func (p *parker) unpark() { p.ch <- struct{}{} }
 
